@@ -28,6 +28,7 @@ NEG_START_FIELDS = {**c06.F_STATE, **c06.F_BUF, **c06.F_NEG, "transport": "obj[T
                     "relay_handshake": "opt[bytes]"}
 
 # what __init__ establishes and add_connection_hints (C20) keeps: the peer's hints are parsed hint objects, the side is 16 hex digits
+DH = "nt[DirectTCPV1Hint]"
 CLASS_INV = "all_valid(self._their_direct_hints) and all_relays_valid(self._our_relay_hints) and is_hex16(self._side)"
 STABLE_COMMON = ("is_sender", "_side", "_tor", "_reactor", "_no_listen", "_transit_relays")     # stored by __init__ only
 
@@ -445,6 +446,58 @@ CONTRACTS = [
                   "fires with is returned unchanged; TransitError (no contenders) and the failure of the race leave connect() "
                   "(the errback of its Deferred).  This version of transit.py sets no description in connect(): the winner's "
                   "description is Connection.describe() of the returned object"),
+    # ------------------------------------------------------------------ this side's own hints (C20, encode side)
+    Contract(T + "Common._build_listener", props=[PROP, "C20"], params={},
+             self_fields={"_no_listen": "bool", "_tor": "opt[obj[Tor]]", "_reactor": "obj[Reactor]"},
+             returns=f"tuple[seq[{DH}],opt[obj[ServerEndpoint]]]",
+             ensures=[("not-listening-publishes-no-direct-hint",
+                       "implies(self._no_listen or self._tor is not None, len(result[0]) == 0 and result[1] is None)"),
+                      ("listening-gives-an-endpoint", "implies(not self._no_listen and self._tor is None, result[1] is not None)"),
+                      ("own-direct-hints-are-valid-hint-objects", "own_direct_ok(result[0])")],
+             internal_ensures=[
+                 ("one-hint-per-address-on-the-allocated-port",
+                  "implies(not self._no_listen and self._tor is None, n_events('allocated-port') == 1 and n_events('addresses') == 1 and "
+                  "all_on_port(result[0], event_arg('allocated-port', 0, 0)) and len(result[0]) <= len(event_arg('addresses', 0, 0)) and "
+                  "n_events('server-endpoint') == 1 and event_arg('server-endpoint', 0, 1) == 'tcp:' + str(event_arg('allocated-port', 0, 0)))")],
+             note="own_direct_ok: every element is a DirectTCPV1Hint with str hostname, int port in 1..65535 and priority 0.0 "
+                  "(what C20's parser demands of a peer's hint, plus the port range); with no_listen or Tor nothing is published and "
+                  "nothing is listened on; otherwise one hint per address of ipaddrs.find_addresses() (loopback dropped unless it is "
+                  "all there is), all on the port of allocate_tcp_port(), which is the port of the server endpoint"),
+    Contract(T + "Common._get_direct_hints", props=[PROP, "C20"], params={},
+             self_fields={"_no_listen": "bool", "_tor": "opt[obj[Tor]]", "_reactor": "obj[Reactor]",
+                          "_listener": "opt[obj[ServerEndpoint]]", "_my_direct_hints": f"seq[{DH}]",
+                          "_listener_d": f"opt[{DEFERRED}]", "_listener_f": "opt[obj[InboundConnectionFactory]]"},
+             requires=["implies(self._listener is not None, own_direct_ok(self._my_direct_hints))",
+                       "implies(self._no_listen or self._tor is not None, self._listener is None)"],
+             modifies=["_listener", "_my_direct_hints", "_listener_d", "_listener_f"], returns=DEFERRED,
+             ensures=[("own-direct-hints-are-valid-hint-objects", "own_direct_ok(self._my_direct_hints)"),
+                      ("no-direct-hints-unless-listening",
+                       "implies(self._no_listen or self._tor is not None, len(self._my_direct_hints) == 0 and self._listener is None and "
+                       "self._listener_d is None)")],
+             internal_ensures=[
+                 ("listener-started-once-and-only-when-not-yet-listening",
+                  "implies(old(self._listener) is not None, len(bcall_names()) == 0 and n_calls('_build_listener') == 0 and "
+                  "self._my_direct_hints == old(self._my_direct_hints)) and "
+                  "implies(old(self._listener) is None, n_calls('_build_listener') == 1 and "
+                  "bcalls('listen') == ite(self._listener is None, 0, 1))"),
+                 ("already-fired-when-nothing-to-start",
+                  "implies(old(self._listener) is not None or self._listener is None, n_events('succeed') == 1 and "
+                  "event_arg('succeed', 0, 0) == result and event_arg('succeed', 0, 1) == self._my_direct_hints)"),
+                 ("inbound-factory-of-this-transit-listens",
+                  "implies(old(self._listener) is None and self._listener is not None, "
+                  "bcall_names()[:2] == ['listen', 'addCallback'] and bcall_arg('listen', 0, 0) is self._listener and "
+                  "bcall_arg('listen', 0, 1) is self._listener_f and self._listener_f.owner is self and "
+                  "self._listener_d == self._listener_f._inbound_d and "
+                  "result == event_arg('listen-deferred', 0, 0) and bcall_arg('addCallback', 0, 0) == result)"),
+                 ("once-listening-it-fires-with-the-hints-and-the-port-is-closed-when-the-listener-is-done",
+                  "implies(old(self._listener) is None and self._listener is not None, "
+                  "run_callback(bcall_arg('addCallback', 0, 1), a_port()) == self._my_direct_hints and "
+                  "bcall_names()[2:] == ['addBoth'] and bcall_arg('addBoth', 0, 0) == self._listener_d and "
+                  "run_callback(bcall_arg('addBoth', 0, 1), probe()) == probe() and bcall_names()[3:] == ['stopListening'])")],
+             note="the Deferred returned carries the stored direct hints - either defer.succeed(self._my_direct_hints) or the "
+                  "listen() Deferred whose only callback returns self._my_direct_hints (both stated above on the trace): this is the "
+                  "deferred-result contract get_connection_hints uses at its yield.  _build_listener by contract; "
+                  "InboundConnectionFactory.__init__ inlined"),
 ]
 
 
@@ -526,10 +579,63 @@ def regf(exclude=()):
         return d
 
     em["twisted.internet.defer.succeed"] = succeed
+    install_listener_models(reg)
     sf["probe"] = lambda it: VOpaque(z3.Const("probe!result", opaque_sort("Any")), "Any")
     reg.spec_funcs["exc_class"] = lambda it, x: VStr(it.force(x).cls if isinstance(it.force(x), VObj) else "?")
     sf["diverges"] = lambda it, a, b: VBool(z3.And(z3.Not(z3.PrefixOf(a.z, b.z)), z3.Not(z3.PrefixOf(b.z, a.z))))
     return reg
+
+
+def _own_direct(seq, extra=None):
+    """z3 Bool: every element of a sequence of DirectTCPV1Hint is what this side may publish: str hostname, int port in
+    1..65535, priority 0.0 (a float)"""
+    def one(v):
+        host, port, prio = [to_json(x) for x in v.items]
+        c = [J.is_jstr(host), J.is_jint(port), J.i(port) > 0, J.i(port) < 65536, prio == J.jreal(z3.RealVal(0))]
+        if extra is not None:
+            c.append(extra(host, port, prio))
+        return z3.And(c)
+    if isinstance(seq, (VList, VTuple)):
+        return z3.And([one(x) for x in seq.items] + [z3.BoolVal(True)])
+    i = z3.Int("i!od")
+    return z3.ForAll([i], z3.Implies(z3.And(0 <= i, i < z3.Length(seq.z)), one(from_z3(seq.z[i], seq.elem))))
+
+
+def install_listener_models(reg):
+    """the operating-system side of listening (all trusted, see TRUSTED): a free TCP port, this host's addresses, Twisted's
+    server endpoint and its listen()"""
+    sf = reg.spec_funcs
+
+    def allocate_tcp_port(it, args, kw, fr):
+        p = it.fresh("int", "port")
+        it.ctx.assume(z3.And(p.z > 0, p.z < 65536))
+        it.ctx.event("allocated-port", p)
+        return p
+
+    def find_addresses(it, args, kw, fr):
+        a = it.fresh("seq[str]", "addresses")
+        it.ctx.event("addresses", a)
+        return a
+
+    def server_from_string(it, args, kw):
+        ep = VObj("ServerEndpoint", {})
+        it.ctx.event("server-endpoint", args[0], args[1], ep)
+        return ep
+
+    def listen(it, recv, meth, args, kwargs, fr):
+        it.ctx.event("bcall", "ServerEndpoint", meth, [recv] + list(args), dict(kwargs))
+        d = it.fresh(DEFERRED, "listen_d")
+        it.ctx.event("listen-deferred", d)
+        return d
+
+    reg.func_models[T + "allocate_tcp_port"] = allocate_tcp_port
+    reg.func_models["wormhole/ipaddrs.py:find_addresses"] = find_addresses
+    reg.ext_models["twisted.internet.endpoints.serverFromString"] = server_from_string
+    reg.boundary["ServerEndpoint.listen"] = listen
+    reg.class_fields.setdefault("ServerEndpoint", {})
+    sf["a_port"] = lambda it: VObj("ListeningPort")
+    sf["own_direct_ok"] = lambda it, s: VBool(_own_direct(it.force(s)))
+    sf["all_on_port"] = lambda it, s, p: VBool(_own_direct(it.force(s), lambda host, port, prio: J.i(port) == it.force(p).z))
 
 
 def _self_frame(fr):
